@@ -7,7 +7,7 @@ SPEC = {
                  'C10_update_del_fixed', 'C10_refuted_sep_collision',
                  'C10_table_refines_map_partial', 'C10_every_save_partial', 'C10_queries_partial',
                  'C10_join_refuted_prefix_scan', 'C10_join_refuted_del_right_change', 'C10_join_refuted_fk_change',
-                 'C10_join_refuted_dangling'],
+                 'C10_join_refuted_dangling', 'C10_join_refines_map_partial', 'C10_join_every_save_partial'],
     'allowed_axioms': [],
     'shard': 40,
     'rule': 'operation histories (Add/Replace/Update/Del/DelRow/Save) on a real table.Table '
@@ -45,7 +45,15 @@ SPEC = {
                      'tied to goleveldb/memdb by the differential check only (iterator properties are C06/C07)',
                      'the Gallina model coq/theories/C10/Model.v (row cache with the pointer structure of rows/rowmap as positions, Add/Replace/Update/'
                      'Del/DelRow, Save/saveRow/addRow/delRow/updateRow/getModify, GetData, ListIndex/listPrimary) is tied to table.go/query.go by the '
-                     'differential check only; Join tables, auto-increment primary keys and mergeCache are not modelled',
+                     'differential check only; auto-increment primary keys are not modelled',
+                     'JoinTable (coq/theories/C10/Join.v): the left and the right table are two instances of the plain-table model, each with its own '
+                     'store under the base key layout; the real database is one flat store with disjoint key prefixes per table - JoinCheck.flat_db renames '
+                     'table and index names in the keys and the result is compared with the dump of the real database; JoinTable.Save (saveLeft, saveRight with '
+                     'the ListIndex prefix scan of the left foreign-key index and mergeCache - the Go map iteration order of rowmap is replaced by key order, which '
+                     'cannot influence the saved result because join rows of different left keys write different keys), join.Table.Save (index records only, '
+                     'JoinData equality, getModify per join index), JoinKey = protobuf KeyValue with one length byte (values shorter than 128 bytes), '
+                     'JoinTable.GetData / ListIndex; all tied to join.go / table.go by the differential check only. Not modelled: calling Save of the left or '
+                     'right table directly, operations on the join table itself',
                      'Coq kernel + vm_compute (refutation witnesses, Examples, case evaluation)'],
     'assumptions': ['C10_table_refines_map_partial / C10_every_save_partial hold under the boolean guard safe_words: per primary key, after Del/DelRow of a '
                     'row that was present at the last Save no further operation on that key until the next Save; indexed fields without the "-" byte. '
@@ -55,11 +63,24 @@ SPEC = {
                     'indexed fields whose calls answered like the map (the hypotheses that keep findings 4, 2 and 1 out) save exactly the map',
                     'C10_queries_partial covers full listings (no start key, count <= 0) as sets, for non-empty primary keys and separator-free '
                     'prefixes; order, pages and start keys are covered by the correspondence check only',
+                    'C10_join_refines_map_partial / C10_join_every_save_partial hold under the boolean guard jsafe: the plain-table guard for the left and '
+                    'for the right table, separator-free non-empty primary keys and indexed values shorter than 128 bytes, and at every join.Save the four '
+                    'clauses of JoinSpec.save_safe over the tables at the last Save and now: (fk) the foreign key of a stored left row is unchanged; (ref) the '
+                    'right row of an added / deleted / addr-changed left row exists, pending or stored; (del) no left Del in the window in which its right '
+                    'row is added or changes status; (pre) no right key that was added, deleted or changed status is a proper prefix of a stored left '
+                    'row\'s foreign key. Each clause is needed: C10_join_refuted_{fk_change, dangling, del_right_change, prefix_scan} refute the statement '
+                    'with that clause switched off (open findings C10-7, C10-8, C10-6, C10-5). Everything else is inside the guard: several operations per '
+                    'key and window on both tables, right changes together with pending left adds / updates / dels of the same and of other right keys, right '
+                    'Del with existing left rows, re-Add, payload- or tag-only right updates. Join queries (JoinTable.ListIndex / GetData) are covered by the '
+                    'correspondence check and the spec oracle only',
                     'outside the guard the three open findings of known_findings/C10.json apply (each has a _refuted theorem with the witness the '
                     'harness reproduces on the Go code)'],
     'manifest': {'level_text': 'partial: unbounded refinement proof (table.go cache + Save = abstract map, exact KV contents, full listings) under the '
                                'guard safe_words; the full statement is refuted by three defects reproduced on the Go code (open findings C10-1, C10-2, '
-                               'C10-4); the fourth (C10-3, stale index entry after Update then Del) is repaired in table.go and proved absent',
+                               'C10-4); the fourth (C10-3, stale index entry after Update then Del) is repaired in table.go and proved absent. JoinTable: '
+                               'unbounded refinement proof (left store, right store and join index records after every join.Save = the two maps and their '
+                               'relational join) under the guard jsafe, whose four clauses are each shown necessary by a refutation reproduced on the Go '
+                               'code (open findings C10-5 .. C10-8)',
                  'level_note': 'value encoding and the KV backend are abstract (ordered map); the model is tied to table.go/query.go by the '
                                'differential check over generated histories on goleveldb and memdb',
                  'technique': 'Coq proof (invariant by induction over op histories) + in-kernel correspondence check'},
